@@ -170,7 +170,7 @@ Definition run (c : case) : list N :=
   | CText t => text_result t
   | CComp b => parse_result 3 (of_component b)
   | CBlob blob oc =>
-      4 :: eL (to_bytes (derive sha256 blob)) ++ keymsg_trace blob ++
+      4 :: eL (to_bytes (derive_fast blob)) ++ keymsg_trace blob ++
       (match blob_decoder oc blob with
        | Some (KEd k) =>
             let pb := eL (to_bytes (remote_to_peer_id (const_hash []) (KEd k))) in
@@ -319,7 +319,7 @@ Definition blob_ok (blob : list N) (body : list N) : bool :=
               let* rp := p_optlist ra in
               pret (pid0, dm, msg, acc, key, pidb, ra, rp)) body with
   | Some (pid0, dm, msg, acc, key, pidb, ra, rp) =>
-      nlist_eqb pid0 (to_bytes (derive sha256 blob)) && (dm <=? 1) && (acc <=? 1) && (ra <=? 1) &&
+      nlist_eqb pid0 (to_bytes (derive_fast blob)) && (dm <=? 1) && (acc <=? 1) && (ra <=? 1) &&
       (acc =? ra) &&
       match key, pidb, rp with
       | Some key, Some pidb, Some rp =>
